@@ -19,3 +19,4 @@ pub mod mon_events;
 pub mod mon_compose;
 pub mod mon_nopanic;
 pub mod replay;
+pub mod mon_through;
